@@ -66,6 +66,7 @@ class ClockShim(object):
 
 
 CLOCK = ClockShim()
+CURRENT = {'ctx': None}
 
 
 def lib():
@@ -87,6 +88,21 @@ def lib():
 
   phase_executor.time = CLOCK
   phase_executor._JOIN_TRY_INTERVAL_SECONDS = 0.002  # pylint: disable=protected-access
+  from openhtf import plugs as plugs_mod  # pylint: disable=g-import-not-at-top
+  from openhtf.core import base_plugs  # pylint: disable=g-import-not-at-top
+
+  class LogPlug(base_plugs.BasePlug):
+    """Logs its construction and tearDown into the current run's call log."""
+
+    def __init__(self):
+      if CURRENT['ctx'] is not None:
+        CURRENT['ctx'].calls.append(('plug_init', 'LogPlug'))
+
+    def tearDown(self):
+      if CURRENT['ctx'] is not None:
+        CURRENT['ctx'].calls.append(('plug_teardown', 'LogPlug'))
+
+  _cache.update(plugs=plugs_mod, LogPlug=LogPlug)
   _cache.update(htf=openhtf, dl=diagnoses_lib, pb=phase_branches, pc=phase_collections, pg=phase_group,
                 pe=phase_executor, tr=test_record, conf=configuration.CONF, R=R)
   return _cache
@@ -182,6 +198,8 @@ def make_phase(name, beh, ctx):
   ph = h.PhaseOptions(name=name, **kw)(body)
   if meas != 'none':
     ph = h.measures(h.Measurement('m_' + name).in_range(0, 10, marginal_maximum=9))(ph)
+  if beh.get('plug'):
+    ph = L['plugs'].plug(update_kwargs=False, lp=L['LogPlug'])(ph)
   diags = beh.get('diag') or []
   if not isinstance(diags, list):
     diags = [diags]
@@ -286,6 +304,7 @@ def run_spec(spec_nodes, settings=None, extra_callbacks=(), test_start=None, kee
   settings = settings or {}
   tree, _ = number(spec_nodes)
   ctx = RunCtx()
+  CURRENT['ctx'] = ctx
   nodes = build_nodes(tree, ctx)
   options = {}
   if settings.get('sof') == 'option':
